@@ -24,6 +24,13 @@
           events: `>i` enter, `<i` exit, `!i` unwound by a panic; Recovery's own frames and the
           model-internal events are not printed (the real Recovery cannot be instrumented).
   The method (default GET) only matters as HEAD or not: the writer is created with `head := (method = HEAD)`.
+  A further header argument `hist=<item>,…` (harness/chain.go, `parseChainHist`) describes the registration history
+  AROUND the session's route: sibling groups with handlers of their own that return, or panic after / before declaring
+  a route (the caller recovers), or have a declaration refused, nested sibling groups, sibling routes — declared at the
+  top level before the route (`t`), at the beginning of the session's outermost group (`g`) or afterwards (`a`).  The
+  chain of a request is application middleware, then the handlers of the groups ENCLOSING the route, outermost first,
+  then the route's own: a sibling declaration — however it ended — contributes nothing, so the configuration served is
+  the same as without the argument (`validHist` only checks the spelling).
   A further header argument `bug` selects `onceBug := true` (response_writer.go as it is, F15);
   the harness ignores it.  It is used only by the known-finding matcher.
 -/
@@ -158,9 +165,20 @@ def Build.cfg (b : Build) (dev bug head : Bool) : Option Cfg :=
            action := if b.act then ks[b.nmw + b.ngrp + b.nrt]? else none,
            dev := dev, onceBug := bug, head := head }
 
+/-- the spelling of a `hist=` argument: a non-empty comma list of position (`t g a`) + kind -/
+def validHist (s : String) : Bool :=
+  s != "" && (s.splitOn ",").all fun it =>
+    match it.toList with
+    | [p, k] => "tga".toList.contains p && "spqenrSPQEN".toList.contains k
+    | _ => false
+
+def histArgsOk (more : List String) : Bool :=
+  more.all fun a => !a.startsWith "hist=" || validHist (a.drop 5).toString
+
 def session (args : List String) (lines : List (List String)) : List String :=
   match args with
   | dev :: nmw :: ngrp :: nrt :: act :: more =>
+    if !histArgsOk more then "bad-session" :: lines.map (fun _ => "bad-session") else
     let dev := dev == "1"
     let bug := more.contains "bug"
     let head := more.contains "HEAD"
